@@ -164,7 +164,21 @@ pub struct CommandLine {
 
 impl Command {
     pub fn from_tokens(tokens: Tokens) -> Result<Command, String> {
-        let mut tokens_new = tokens.clone();
+        // `<file` / `<<<word` written without a blank after the operator:
+        // split the (unquoted) token into operator and operand.
+        let mut tokens_new: Tokens = Vec::new();
+        for token in &tokens {
+            let (sep, text) = (&token.0, &token.1);
+            if sep.is_empty() && text.len() > 3 && text.starts_with("<<<") {
+                tokens_new.push((String::new(), "<<<".to_string()));
+                tokens_new.push((String::new(), text[3..].to_string()));
+            } else if sep.is_empty() && text.len() > 1 && text.starts_with('<') && !text.starts_with("<<") {
+                tokens_new.push((String::new(), "<".to_string()));
+                tokens_new.push((String::new(), text[1..].to_string()));
+            } else {
+                tokens_new.push(token.clone());
+            }
+        }
         let mut redirects_from_type = String::new();
         let mut redirects_from_value = String::new();
         // only unquoted `<` / `<<<` are operators
